@@ -215,9 +215,9 @@ theorem echoHold_step {s s' : Sys} (hI : Inv H c s) (hI' : Inv H c s')
         subst hm2
         exact ⟨msg.payload, hmb, Or.inl rfl⟩
 
-/-- one value per (sender, tag) among the broadcasts -/
-def UniqBc (bc : List (Nat × Tag × Int)) : Prop :=
-  ∀ k τ v v', (k, τ, v) ∈ bc → (k, τ, v') ∈ bc → v = v'
+/-- the sender `k` broadcast one value under the tag `τ` -/
+def UniqTag (bc : List (Nat × Tag × Int)) (k : Nat) (τ : Tag) : Prop :=
+  ∀ v v', (k, τ, v) ∈ bc → (k, τ, v') ∈ bc → v = v'
 
 def echoMsg (τ : Tag) (d : Int) : Msg := ⟨τ.id, τ.sender, τ.seq, rEcho, d⟩
 def readyMsg (τ : Tag) (d : Int) : Msg := ⟨τ.id, τ.sender, τ.seq, rReady, d⟩
@@ -228,19 +228,19 @@ def SentAll (c : Cfg) (s : Sys) (j : Nat) (m : Msg) : Prop := ∀ d < c.n, (j, d
 /-- if the sender never reuses a tag: an honest party that consumed the r-send of an honest
     sender has echoed the hash of the value broadcast under that tag -/
 def SendEcho (H : Int → Int) (c : Cfg) (s : Sys) : Prop :=
-  UniqBc s.bc → ∀ i, c.honest i → ∀ k, c.honest k → ∀ τ, fHas (s.st i).send k τ = true →
+  ∀ i, c.honest i → ∀ k, c.honest k → ∀ τ, UniqTag s.bc k τ → fHas (s.st i).send k τ = true →
     τ.sender = (k : Int) → ∃ v, (k, τ, v) ∈ s.bc ∧ SentAll c s i (echoMsg τ (H v))
 
 theorem sendEcho_step {s s' : Sys} (hI : Inv H c s)
     (hm : Micro H T c s s') (hM : MbarOk c s) (hB : BcLog c s) (ih : SendEcho H c s) :
     SendEcho H c s' := by
   have hfr := hm.frame
-  intro hu' i hi k hk τ hfl hs
-  have hu : UniqBc s.bc := fun k τ v v' h h' => hu' k τ v v' (hfr.2.2 _ h) (hfr.2.2 _ h')
+  intro i hi k hk τ hu' hfl hs
+  have hu : UniqTag s.bc k τ := fun v v' h h' => hu' v v' (hfr.2.2 _ h) (hfr.2.2 _ h')
   have old : fHas (s.st i).send k τ = true →
       ∃ v, (k, τ, v) ∈ s'.bc ∧ SentAll c s' i (echoMsg τ (H v)) := by
     intro h
-    obtain ⟨v, h1, h2⟩ := ih hu i hi k hk τ h hs
+    obtain ⟨v, h1, h2⟩ := ih i hi k hk τ hu h hs
     exact ⟨v, hfr.2.2 _ h1, fun d hd => hfr.1 _ (h2 d hd)⟩
   have old' : (s'.st i).send = (s.st i).send →
       ∃ v, (k, τ, v) ∈ s'.bc ∧ SentAll c s' i (echoMsg τ (H v)) := by
@@ -279,7 +279,7 @@ theorem sendEcho_step {s s' : Sys} (hI : Inv H c s)
         · exact hne hsender
         · have hid := (hB k _ _ hbc).2.1
           have := hM i hi msg.tag mb hmb hid k hk hs
-          exact hne (hu k _ _ _ this hbc)
+          exact hne (hu _ _ this hbc)
       · refine ⟨msg.payload, hfr.2.2 _ hbc, fun d hd => ?_⟩
         refine List.mem_append_right _ (mem_tagMsgs.2 ⟨rfl, ?_⟩)
         rw [hsd]
